@@ -43,6 +43,13 @@ def setup():
     return 1
   gin.config.register_file_reader(lambda p: io.StringIO(MEM[p]), lambda p: p in MEM)
 
+  # names that coincide with the contextual keywords of the statement grammar
+  for kw in ('include', 'import'):
+    def kwfn(x=None, y=None):
+      return x
+    kwfn.__name__ = kw
+    gin.external_configurable(kwfn, name=kw, module='c03kw')
+
 
 class Delegate(config_parser.ParserDelegate):
   def configurable_reference(self, scoped_configurable_name, evaluate):
@@ -65,6 +72,12 @@ STMTS = {
     'M2': ('macro', 'mac', '6', 'macro.value'),
     'M3': ('macro', 'a/b', '7', 'plain'),
     'M4': ('macro', 'a/b', "'eight'", 'gin.macro.value'),
+    'M5': ('macro', 'include', "'inc'", 'plain'),
+    'M6': ('macro', 'from', '2', 'plain'),
+    'M7': ('macro', 'import', '[1, 2]', 'plain'),
+    'B8': ('bind', '', 'include', 'x', '9'),
+    'B9': ('bind', '', 'include', 'y', "'nine'"),
+    'B10': ('bind', 'a', 'import', 'x', '10'),
     'I1': ('import', 'json', False, None),
     'I2': ('import', 'os.path', False, None),
     'I3': ('import', 'os.path', False, 'osp'),
